@@ -176,6 +176,11 @@ func (g *VGen) pool(t *ty.Ty, depth int) []*ty.Val {
 				i := 1 + g.Rng.Intn(len(vs)-2)
 				out = append(out, &ty.Val{K: ty.VMap, Elems: []*ty.Val{k1, vs[i], ks[1], vs[i+1]}})
 			}
+			if ku := g.Env.Under(u.Key); ku != nil && ku.K == ty.Basic && ku.B == "string" && len(vs) > 1 {
+				// two keys that collide under the derived string hash (31*h + c) and hold different values:
+				// a walk ordered by the hashes of the keys leaves these two in map-iteration order
+				out = append(out, &ty.Val{K: ty.VMap, Elems: []*ty.Val{sv("Aa"), vs[len(vs)-1], sv("BB"), v1}})
+			}
 			out = append(out, &ty.Val{K: ty.VMap, Elems: []*ty.Val{k1, v1}})
 			if len(vs) > 1 {
 				out = append(out, &ty.Val{K: ty.VMap, Elems: []*ty.Val{k1, vs[1]}})
